@@ -43,6 +43,7 @@ fn main() {
     match prop.as_str() {
         "C19" => props::c19::run(&a),
         "C17" => props::c17::run(&a),
+        "C09" => props::c09::run(&a),
         _ => { eprintln!("unknown property {}", prop); std::process::exit(2); }
     }
 }
